@@ -91,6 +91,30 @@ def _metadata_kept(paths, out):
                got['taxonomy_tree'] == s['taxonomy_tree'] for s in ins)
 
 
+def _order_independent(paths, out):
+    """C04: the merged file is a function of the *set* of input files - every other order of the same
+    list (the command-line tool builds it by iterating over a set of dataset labels) gives the same
+    datasets, ties in n_cells included"""
+    import itertools
+    import numpy as np
+    from bounded import c09
+    from cell_type_mapper.diff_exp.precompute_utils import merge_precompute_files
+    got = c09.read_stats(out)
+    lst = list(paths)
+    perms = [lst[::-1], lst[1:] + lst[:1]] if len(lst) > 1 else []
+    for k, perm in enumerate(perms):
+        other = out[:-3] + f'_perm{k}.h5'
+        if os.path.exists(other):
+            os.unlink(other)
+        merge_precompute_files(precompute_path_list=list(perm), output_path=other)
+        alt = c09.read_stats(other)
+        os.unlink(other)
+        for key in c09.STAT_KEYS:
+            if not np.array_equal(np.asarray(got[key]), np.asarray(alt[key])):
+                return False
+    return True
+
+
 def _inputs_untouched(paths, out):
     before = _INPUTS[out][4]
     return all(open(p, 'rb').read() == before[p] for p in paths)
@@ -98,7 +122,7 @@ def _inputs_untouched(paths, out):
 
 contract(
     M + 'merge_precompute_files',
-    properties=['C09'],
+    properties=['C09', 'C04'],
     mode='bounded',
     params=dict(precompute_path_list='List[Name]', output_path='Name'),
     requires=["len(precompute_path_list) >= 1"],
@@ -108,11 +132,13 @@ contract(
         "rows_from_one_donor(precompute_path_list, output_path)",
         "metadata_kept(precompute_path_list, output_path)",
         "inputs_untouched(precompute_path_list, output_path)",
+        "order_independent(precompute_path_list, output_path)",
         # the caller's list is sorted in place (documented side effect of the function)
         "sorted(precompute_path_list) == sorted(old(precompute_path_list))",
     ],
     native=dict(gen=_gen_merge,
                 bound='1-4 statistics files of one taxonomy, <= 5 leaves x 4 genes, ties in n_cells',
                 env=dict(n_cells_is_max=_n_cells_is_max, rows_from_one_donor=_rows_from_one_donor,
-                         metadata_kept=_metadata_kept, inputs_untouched=_inputs_untouched, sorted=sorted)),
+                         metadata_kept=_metadata_kept, inputs_untouched=_inputs_untouched,
+                         order_independent=_order_independent, sorted=sorted)),
 )
